@@ -38,6 +38,7 @@ def in_wider_domain(meta, table, sets):
 
 class C17(PropertyCheck):
     pid = "C17"
+    release_too = True       # both build profiles (review 2: the both-modes theorems must be tied to a release build too)
     source_tables = ["ASet", "BIN_HEADER"]   # tables / constants regenerated from /repo's source (gen/srctables.py)
     rule = ("values built through the public fields of ASetFile: every presence pattern of one group over a 7-slot window (first six "
             "slots and the last slot of the group; thorough: 2^16 patterns over 16 slots) for groups 0, 3 and 7, cross patterns over two "
